@@ -492,3 +492,6 @@ def finish(stats, tier):
     if not stats["outcomes"].get("changed"):
         out.append("no run changed the tree")
     return out
+
+
+RULE += ' Since rounds 10-11 also: a group spanning two file systems; a directory bind-mounted at a second place (with and without --match-links, with a genuine copy); a transform program killed by a signal; same-length rewrites between two cached runs with times 1 ms ... 1 s apart.'
